@@ -1,8 +1,9 @@
 """C20 - outlier ejection never removes more than the allowed share of nodes.
 
 S1  TLC checks Outlier.tla exhaustively (per-node three-state breakers, known set, rational ejection percentage,
-    recycler marks, active recovery) against the action properties PFilter PCap PHalf PRecycle PKept PKnown, and
-    shows on four deliberately broken designs (Mut = cap / closed / half / recycle) that each property can fail.
+    recycler marks, active recovery, pooled contexts, rule reloads) against the action properties PFilter PCap PHalf PQuiet
+    POwn PRecycle PKept PSurvive PKnown PReload PIsolated, and shows on six deliberately broken designs (Mut = cap / closed /
+    half / recycle / stale / forget) that each property can fail.
 S2  scenarios: (a) one per transition of a bounded instance of the same spec, (b) TLC random simulation of a larger
     instance, (c) seeded random per-node success/failure histories over 1..12 (some up to 100) nodes, every
     percentage k/10, 1/3, k/100, all three strategies, retry timeouts, probe numbers, active recovery on / off.
@@ -10,22 +11,26 @@ S2  scenarios: (a) one per transition of a bounded instance of the same spec, (b
     which the answer lists live - plus a directed family "quiet after ejection": something was reported earlier, now no
     node rejects and none is probed, the next requests (same and other resource, contexts rotating) must be told nothing.
     (e) hand-shaped scenarios for the recycle clause that wait for the library's REAL time.AfterFunc.
+    (f) RELOADS in the middle of histories (Reload of Outlier.tla: the rule in force is state): in the transition cover / TLC
+    simulation of instances with MaxReload > 0, in half of the random histories, in a directed family (eject - change the
+    percentage / the recovery mode / nothing / clear and load - ask again) and in the recycle scenarios R6a-d (the rule is
+    loaded again while the recycle timers are pending; the node completes successfully afterwards).
 S3  harness/cmd/c20 drives the real code: a slot chain built like the micro/kratos adapters build it
     (api.BuildDefaultSlotChain + outlier.DefaultSlot + outlier.DefaultMetricStatSlot), api.Entry, FilterNodes() /
     HalfOpenNodes(), api.TraceCallee / TraceError, Exit, virtual clock at hx.BaseMs + t.
 S4  Outlier_Trace.tla (TLC) replays every operation on the abstract state and judges every recorded answer.
 """
-import concurrent.futures, json, os
+import concurrent.futures, copy, json, os
 import vlib
 from vlib import main, write_ndjson, read_ndjson, MachineryError
 
 CHUNK = 150      # scenarios per driver process
 PCTS = [[0, 1], [1, 10], [3, 10], [1, 3], [1, 2], [7, 10], [1, 1]]
-PROPS = 'PFilter PCap PHalf PQuiet POwn PRecycle PKept PKnown PIsolated'
+PROPS = 'PFilter PCap PHalf PQuiet POwn PRecycle PKept PSurvive PKnown PReload PIsolated'
 
 
 def mc_cfg(nodes, pct, rules, actives, maxt, maxreq, maxin, mut='none', gen=False, sym=True, steps='{1, 2}', pre=False, nres=1, pooled=False,
-           props=PROPS):
+           props=PROPS, reloads=0):
     if isinstance(nodes, int) and sym and not gen:
         nodeline = '  Nodes = {%s}\n' % ', '.join('n%d' % i for i in range(1, nodes + 1))
         symline = 'SYMMETRY NodeSym\n'
@@ -46,10 +51,11 @@ def mc_cfg(nodes, pct, rules, actives, maxt, maxreq, maxin, mut='none', gen=Fals
   Pre = %s
   NRes = %d
   Pooled = %s
+  MaxReload = %d
 %sVIEW view
 %sCHECK_DEADLOCK FALSE
 """ % (nodes, ', '.join(map(str, pct)), ', '.join(map(str, rules)), ', '.join(actives), steps, maxt, maxreq, maxin, mut, 'TRUE' if pre else 'FALSE', nres,
-       'TRUE' if pooled else 'FALSE', symline, '' if gen else 'INVARIANT TypeOK\nPROPERTIES %s\n' % props)
+       'TRUE' if pooled else 'FALSE', reloads, symline, '' if gen else 'INVARIANT TypeOK\nPROPERTIES %s\n' % props)
 
 
 # ------------------------------------------------------------------------------------------- scenarios
@@ -81,10 +87,49 @@ def decorate(hist, tr, unit):
                 o['more'] = [dict(rule=o['rule'], pct=o['pct'], active=o['active']) for _ in range(nres - 1)]
         elif o['op'] == 'tick':
             o['d'] = o['d'] * unit
+        elif o['op'] == 'reload':
+            o['rule'] = scale_rule(o['rule'], unit)
         out.append(o)
     # the spec starts at tick 1: the scenario starts one unit after the base
     out.insert(1, dict(op='tick', d=unit))
     return out
+
+
+def spice(rng, scn, timers=False):
+    """the fields of a reload the specification abstracts from: the public entry point (LoadRuleOfResource / LoadRules) and
+    the intervals of the recycler and the retryer.  Sequential stages: RecycleIntervalS 0 (= 10 min) or 4 - no recycle timer
+    fires while a virtual-time scenario runs (milliseconds of real time); the health check of these stages never succeeds."""
+    for o in scn:
+        if o['op'] == 'reload':
+            o.setdefault('via', rng.choice(['res', 'res', 'all']))
+            if not timers:
+                if rng.random() < 0.5:
+                    o.setdefault('recycle_s', rng.choice([0, 4]))
+                if rng.random() < 0.5:
+                    o.setdefault('recov_ms', rng.choice([4000, 500]))
+                if rng.random() < 0.3:
+                    o.setdefault('attempts', rng.choice([1, 3, 5]))
+    return scn
+
+
+def random_reload(rng, cfgs, k, clear_ok=True):
+    """a reload of resource k: (mostly) the embedded circuit-breaker rule stays and the percentage / the recovery mode
+    change - or nothing does; sometimes the rule is cleared first and (possibly another) rule is loaded.  Returns the op and
+    replaces cfgs[k-1] (never mutates it: the `new' line refers to the old one)."""
+    old = cfgs[k - 1]
+    o = dict(op='reload', res=k)
+    x = rng.random()
+    if clear_ok and x < 0.2:
+        o['clear'] = True
+        if rng.random() < 0.5:
+            o['rule'] = random_rule(rng)
+    if x < 0.85:
+        if rng.random() < 0.7:
+            o['pct'] = rng.choice(RAND_PCTS)
+        if rng.random() < 0.3:
+            o['active'] = not old['active']
+    cfgs[k - 1] = dict(rule=o.get('rule', old['rule']), pct=o.get('pct', old['pct']), active=o.get('active', old['active']))
+    return o
 
 
 def random_rule(rng):
@@ -144,7 +189,11 @@ def random_scenarios(c, n, first_tr, big=False):
             flaky = {(1, x): 1.0 for x in nodes}
         new = dict(op='new', tr=tr, rule=rule, pct=pct, active=cfgs[0]['active'])
         if nres > 1:
-            new['more'] = cfgs[1:]
+            new['more'] = list(cfgs[1:])
+        # about half of the scenarios load the rule of a resource again in the middle of the history (see random_reload)
+        reloads = i % 2 == 1
+        if reloads and rng.random() < 0.3 and not any(x['active'] for x in cfgs):
+            new['nocheck'] = True      # no RecoveryCheckFunc: an identical reload is recognised as such by the library
         s = [new, dict(op='tick', d=rng.choice([1, 7, 250, 999]))]
         if big and i == 0:
             for x in nodes:
@@ -152,6 +201,19 @@ def random_scenarios(c, n, first_tr, big=False):
             s.append(dict(op='req', id=1))
             out.append(s)
             continue
+        if big and reloads:
+            # directed: many nodes fail, then the percentage is changed under the ejection: the cap follows at once
+            for x in nodes:
+                if flaky[(1, x)] == 1.0:
+                    for _ in range(rule['thr'][0] if rule['strategy'] == 'ecount' else 1):
+                        s.append(dict(op='req', id=1))
+                        if rule['strategy'] == 'slow':
+                            s.append(dict(op='tick', d=rule['maxRt'] + 1))
+                        s.append(dict(op='done', id=1, node=x, err=True))
+            for _ in range(3):
+                s.append(dict(op='obs'))
+                s.append(random_reload(rng, cfgs, 1, clear_ok=False))
+            s.append(dict(op='obs'))
         free = [1, 2, 3]
         open_ = {}    # id -> resource
         steps = rng.randint(15, 60) if not big else nn * rule['thr'][0] * 2 + 20
@@ -173,6 +235,13 @@ def random_scenarios(c, n, first_tr, big=False):
                     s.append(dict(op='done', id=rid, node=node, err=rng.random() < flaky[(k, node)]))
                 del open_[rid]
                 free.append(rid)
+            elif reloads and x > 0.96:
+                k = rng.randint(1, nres)
+                o = random_reload(rng, cfgs, k)
+                s.append(o)
+                if o.get('clear'):
+                    warm[k] = list(rnodes[k])
+                    rng.shuffle(warm[k])
             elif free and x < 0.85:
                 rid = free.pop(0)
                 k = rng.randint(1, nres)
@@ -185,7 +254,98 @@ def random_scenarios(c, n, first_tr, big=False):
         s.append(dict(op='req', id=9))
         for k in range(2, nres + 1):
             s.append(dict(op='obs', res=k))
-        out.append(s)
+        out.append(spice(rng, s))
+    return out
+
+
+def reload_scenarios(c, n, first_tr):
+    """directed family (virtual clock): nodes are ejected under one percentage / recovery mode, then the rule of the resource
+    is loaded again - other percentage, other mode, nothing changed, or cleared and loaded - and the next requests must be
+    answered from the rule NOW in force over the SAME known nodes and breaker states (clear: over no node at all)"""
+    rng = c.rng
+    out = []
+    for i in range(n):
+        tr = first_tr + i
+        T = rng.choice([1000, 3000, 500])
+        probe = rng.choice([0, 0, 1, 2])
+        thr = rng.choice([1, 1, 2])
+        rule = dict(strategy='ecount', thr=[thr, 1], minAmt=1, timeout=T, I=rng.choice([1000, 10000]), nb=rng.choice([1, 2]), maxRt=0, probeNum=probe)
+        nn = rng.randint(2, 9)
+        nodes = ['n%d' % k for k in range(1, nn + 1)]
+        cfgs = [dict(rule=rule, pct=rng.choice(RAND_PCTS), active=rng.random() < 0.35)]
+        two = rng.random() < 0.4
+        new = dict(op='new', tr=tr, rule=rule, pct=cfgs[0]['pct'], active=cfgs[0]['active'])
+        if two:
+            cfgs.append(dict(rule=rule, pct=rng.choice(RAND_PCTS), active=rng.random() < 0.35))
+            new['more'] = [cfgs[1]]
+        if not any(x['active'] for x in cfgs) and rng.random() < 0.3:
+            new['nocheck'] = True
+        s = [new, dict(op='tick', d=rng.choice([1, 250, 999]))]
+
+        def call(res, node, err=False):
+            s.append(dict(op='req', id=1, res=res) if two else dict(op='req', id=1))
+            s.append(dict(op='done', id=1, node=node, err=err))
+
+        def look():
+            for res in ([1, 2] if two else [1]):
+                s.append(dict(op='obs', res=res) if two else dict(op='obs'))
+
+        def reload(res, **kw):
+            o = dict(op='reload', res=res, **kw)
+            old = cfgs[res - 1]
+            cfgs[res - 1] = dict(rule=o.get('rule', old['rule']), pct=o.get('pct', old['pct']), active=o.get('active', old['active']))
+            s.append(o)
+
+        for res in ([1, 2] if two else [1]):
+            if rng.random() < 0.7:
+                for x in nodes:
+                    call(res, x)
+        bad = rng.sample(nodes, rng.randint(1, nn))
+        for x in bad:
+            for _ in range(thr):
+                call(1, x, True)
+        if two:
+            for x in rng.sample(bad, rng.randint(0, len(bad))):
+                for _ in range(thr):
+                    call(2, x, True)
+        look()
+        # the percentage changes under the ejection (twice), then nothing changes
+        reload(1, pct=rng.choice(RAND_PCTS))
+        look()
+        reload(rng.choice([1, 2]) if two else 1, pct=rng.choice([[1, 1], [0, 1], [1, 2], rng.choice(RAND_PCTS)]))
+        look()
+        reload(1)
+        look()
+        # the retry timeout passes (or just not); the recovery mode in force decides whether the probed nodes are reported
+        s.append(dict(op='tick', d=rng.choice([T, T + 1, T - 1, 2 * T])))
+        if rng.random() < 0.6:
+            reload(1, active=not cfgs[0]['active'])
+        s.append(dict(op='req', id=2, res=1) if two else dict(op='req', id=2))
+        look()
+        if rng.random() < 0.5:
+            reload(1, active=not cfgs[0]['active'], pct=rng.choice(RAND_PCTS))
+        s.append(dict(op='done', id=2, node=bad[0], err=rng.random() < 0.3))
+        look()
+        for x in bad[1:]:
+            call(1, x, rng.random() < 0.3)
+        look()
+        if rng.random() < 0.4:
+            # cleared and loaded again (same or another circuit-breaker rule): nothing is known, nothing may be reported
+            reload(1, clear=True, **(dict(rule=random_rule(rng)) if rng.random() < 0.5 else {}))
+            look()
+            rl = cfgs[0]['rule']
+            for x in rng.sample(nodes, rng.randint(1, nn)):
+                for _ in range(3):
+                    if rl['strategy'] == 'slow':
+                        s.append(dict(op='req', id=1, res=1) if two else dict(op='req', id=1))
+                        s.append(dict(op='tick', d=rl['maxRt'] + 1))
+                        s.append(dict(op='done', id=1, node=x, err=True))
+                    else:
+                        call(1, x, True)
+            look()
+            reload(1, pct=rng.choice(RAND_PCTS))
+            look()
+        out.append(spice(rng, s))
     return out
 
 
@@ -263,19 +423,19 @@ def quiet_scenarios(c, n, first_tr):
     return out
 
 
-def recycle_scenarios(c, first_tr):
+def recycle_scenarios(c, first_tr, reload_variants='abcd'):
     """the recycle clause needs the library's real timers (RecycleIntervalS = 1)"""
     rng = c.rng
     out = []
     tr = first_tr
 
-    def base(active=False, probe=0, healthy=None, thr=1):
+    def base(active=False, probe=0, healthy=None, thr=1, recov=60):
         nonlocal tr
         tr += 1
         o = dict(op='new', tr=tr, rule=dict(strategy='ecount', thr=[thr, 1], minAmt=1, timeout=3000, I=1000, nb=1, maxRt=0, probeNum=probe),
                  pct=[1, 1], active=active, recycle_s=1)
         if active:
-            o.update(recov_ms=60, healthy=healthy or {})
+            o.update(recov_ms=recov, healthy=healthy or {})
         return [o, dict(op='tick', d=rng.choice([1, 500, 1234]))]
 
     def fail(s, node, thr=1):
@@ -339,19 +499,101 @@ def recycle_scenarios(c, first_tr):
     fail(s, 'a')
     s += [dict(op='req', id=1), dict(op='wait', sentinel='zz')]
     out.append(s)
+    # R6: the outlier rule of the resource is loaded AGAIN while the recycle timers are pending (the percentage stays 1 so that
+    # the observation hides nothing); `a' completes successfully only AFTER the reload.  Whatever was reloaded, a node that
+    # completed successfully after it was handed to the recycler is not recycled; zz (and the extras) are.
+    for v in reload_variants:
+        if v in 'ab':
+            # a: LoadRuleOfResource with other recovery parameters;  b: LoadRules with every rule, nothing changed
+            s = base()
+            for n in ['a'] + extra:
+                fail(s, n)
+            fail(s, 'zz')
+            s.append(dict(op='req', id=1)); s.append(dict(op='done', id=1, node='ok', err=False))
+            s.append(dict(op='reload', res=1, via='res', recov_ms=1000, attempts=5) if v == 'a' else dict(op='reload', res=1, via='all'))
+            s.append(dict(op='tick', d=3000))
+            s.append(dict(op='req', id=1)); s.append(dict(op='done', id=1, node='a', err=False))
+            if v == 'b':
+                s.append(dict(op='reload', res=1, via='res'))
+            fail(s, 'a')
+            s += [dict(op='req', id=1), dict(op='wait', sentinel='zz')]
+        elif v == 'c':
+            # active recovery: the rule is reloaded before the health check of `a' succeeds (its breaker is still open)
+            s = base(active=True, healthy={'a': True}, recov=250)
+            for n in ['a'] + extra:
+                fail(s, n)
+            fail(s, 'zz')
+            s.append(dict(op='req', id=1)); s.append(dict(op='done', id=1, node='ok', err=False))
+            s.append(dict(op='reload', res=1, via=rng.choice(['res', 'all']), recov_ms=100))
+            s += [dict(op='active', node='a'), dict(op='req', id=1), dict(op='wait', sentinel='zz')]
+        else:
+            # d: the rule is cleared and loaded again while the timers are pending: every node is forgotten, the recycler is not;
+            # `a' is learnt again through a successful completion, a and zz fail again: zz goes when its (old) timer fires, a stays
+            s = base()
+            for n in ['a'] + extra:
+                fail(s, n)
+            fail(s, 'zz')
+            s.append(dict(op='req', id=1)); s.append(dict(op='done', id=1, node='ok', err=False))
+            s.append(dict(op='reload', res=1, clear=True, via=rng.choice(['res', 'all'])))
+            s.append(dict(op='req', id=1)); s.append(dict(op='done', id=1, node='a', err=False))
+            fail(s, 'a')
+            fail(s, 'zz')
+            s += [dict(op='req', id=1), dict(op='wait', sentinel='zz')]
+        out.append(s)
     return out
 
 
 # ------------------------------------------------------------------------------------------- drive + validate
-def run_and_validate(c, drv, scns, tag, timeout=600, retries=0, partial=False):
+def wellformed_prefix(lines):
+    good = []
+    for l in lines:
+        try:
+            json.loads(l)
+        except ValueError:
+            break
+        good.append(l)
+    return good
+
+
+def run_and_validate(c, drv, scns, tag, timeout=600, retries=0, partial=False, each=False):
     """drive + judge.  Returns (mismatches, trace path, driver error).  partial=True (timer scenarios): a driver that gives
     up (exit 2: a wait timed out, unsafe timing) is not the end - whatever it recorded until then is still judged by the
     trace spec, and the error is handed back to the caller, so that a forbidden answer in the recorded part becomes a
-    violation and the machinery failure never hides it."""
+    violation and the machinery failure never hides it.
+    each=True (timer scenarios): one driver process PER SCENARIO (the real-time guard of `wait' is per process start), the
+    processes run side by side (they mostly sleep), the traces are judged as one file; the error handed back is the list
+    [(trace number, error)] of the scenarios whose driver gave up."""
     sp = os.path.join(c.scratch, tag + '.scn.ndjson')
     tp = os.path.join(c.scratch, tag + '.trace.ndjson')
     err = None
-    if len(scns) > CHUNK:
+    if each:
+        def one(k):
+            spk, tpk = '%s.%d' % (sp, k), '%s.%d' % (tp, k)
+            write_ndjson(spk, scns[k])
+            e = None
+            for attempt in range(retries + 1):
+                try:
+                    c.run([drv, spk, tpk], timeout=timeout)
+                    e = None
+                    break
+                except MachineryError as ex:
+                    if attempt < retries and 'timing unsafe' in str(ex):
+                        c.log('%s scenario %d: driver reported unsafe timing, retrying (%d)' % (tag, scns[k][0]['tr'], attempt + 1))
+                        continue
+                    if not partial or not os.path.exists(tpk):
+                        raise
+                    e = ex
+                    break
+            ls = [l for l in open(tpk).read().splitlines() if l.strip()]
+            return (wellformed_prefix(ls) if e is not None else ls), e
+        with concurrent.futures.ThreadPoolExecutor(max_workers=8) as ex:
+            res = list(ex.map(one, range(len(scns))))
+        lines = [l for ls, _ in res for l in ls]
+        err = [(scns[k][0]['tr'], e) for k, (_, e) in enumerate(res) if e is not None] or None
+        open(tp, 'w').write(''.join(l + '\n' for l in lines))
+        if not lines:
+            raise err[0][1]
+    elif len(scns) > CHUNK:
         # several driver processes (rules of finished scenarios stay loaded: a long run makes the heap - and the two garbage
         # collections per scenario that empty the context pool - grow); the traces are judged as one file
         parts = [scns[i:i + CHUNK] for i in range(0, len(scns), CHUNK)]
@@ -379,19 +621,13 @@ def run_and_validate(c, drv, scns, tag, timeout=600, retries=0, partial=False):
                     raise
                 err = e
                 break
-    lines = [l for l in open(tp).read().splitlines() if l.strip()]
-    if err is not None:
-        good = []
-        for l in lines:       # keep the well-formed prefix
-            try:
-                json.loads(l)
-            except ValueError:
-                break
-            good.append(l)
-        lines = good
-        open(tp, 'w').write(''.join(l + '\n' for l in lines))
-        if not lines:
-            raise err
+    if not each:
+        lines = [l for l in open(tp).read().splitlines() if l.strip()]
+        if err is not None:
+            lines = wellformed_prefix(lines)
+            open(tp, 'w').write(''.join(l + '\n' for l in lines))
+            if not lines:
+                raise err
     nlines = len(lines)
     mism, consumed, r = c.validate('Outlier_Trace', tp, nlines)
     if consumed != nlines:
@@ -488,6 +724,21 @@ def quiet_after_report(trace):
     return n
 
 
+def reload_stats(trace):
+    """(reloads, clearing reloads, reloads through LoadRules, requests of a reloaded resource that were told something afterwards)"""
+    n = ncl = nall = after = 0
+    seen = set()
+    for e in trace:
+        if e['op'] == 'reload':
+            n += 1
+            ncl += 1 if e['clear'] else 0
+            nall += 1 if e.get('via') == 'all' else 0
+            seen.add(e['res'])
+        elif e['op'] in ('req', 'obs') and e.get('res', 1) in seen and (e['filter'] or e['half']):
+            after += 1
+    return n, ncl, nall, after
+
+
 def classify(c, scn, exp):
     """known-finding key for a confirmed mismatch, or None"""
     return None
@@ -524,6 +775,79 @@ def maximal(hs):
     return out
 
 
+def model_check_design(c, thorough):
+    """S1: exhaustive TLC runs of the bounded instances of Outlier.tla and the broken designs (vacuity).  Independent of the
+    scenario stages: check_body runs it beside them (own scratch directory, own TLC run counter)."""
+    ALLP, BOTH = [1, 2, 3, 4, 5, 6, 7], ['FALSE', 'TRUE']
+    # S1 ---------------------------------------------------------------------------------
+    if not thorough:
+        runs = [dict(nodes=3, pct=ALLP, rules=[1], actives=BOTH, maxt=5, maxreq=3, maxin=2, steps='{2}'),
+                dict(nodes=2, pct=[2, 4, 5, 7], rules=[2, 3, 4], actives=['FALSE'], maxt=4, maxreq=3, maxin=1),
+                # pre = start from ANY set of known nodes, any of them open: every (known, open) split of 4 nodes x every percentage
+                dict(nodes=4, pct=ALLP, rules=[1], actives=BOTH, maxt=3, maxreq=1, maxin=1, steps='{2}', pre=True),
+                # two resources on one chain: the answer lists live in pooled contexts that keep their content
+                dict(nodes=2, pct=[5, 7], rules=[1], actives=BOTH, maxt=5, maxreq=3, maxin=2, steps='{2}', nres=2, pooled=True),
+                # one resource, pooled contexts, long enough to eject - recover - be quiet again (two probes with rule 2)
+                dict(nodes=1, pct=[7], rules=[1, 2], actives=BOTH, maxt=7, maxreq=5, maxin=1, steps='{2}', pooled=True),
+                # the rule of a resource is loaded again in the middle of the history (other percentage / recovery mode, nothing
+                # changed, cleared and loaded): straggling completions, recycle timers and health checks around the reload
+                dict(nodes=2, pct=[5, 7], rules=[1], actives=BOTH, maxt=5, maxreq=3, maxin=2, steps='{2}', reloads=1),
+                # three nodes, the percentages whose caps differ for 2 and 3 known nodes (0, 1/3, 1/2, 1)
+                dict(nodes=3, pct=[1, 4, 5, 7], rules=[1], actives=['FALSE'], maxt=5, maxreq=3, maxin=1, steps='{2}', reloads=1)]
+    else:
+        runs = [dict(nodes=3, pct=ALLP, rules=[1], actives=BOTH, maxt=5, maxreq=3, maxin=2),
+                dict(nodes=3, pct=[1, 4, 5, 7], rules=[1], actives=BOTH, maxt=5, maxreq=4, maxin=2, steps='{2}'),
+                dict(nodes=4, pct=ALLP, rules=[1], actives=BOTH, maxt=5, maxreq=3, maxin=1, steps='{2}'),
+                dict(nodes=5, pct=ALLP, rules=[1], actives=BOTH, maxt=3, maxreq=1, maxin=1, steps='{2}', pre=True),
+                dict(nodes=4, pct=ALLP, rules=[1], actives=BOTH, maxt=3, maxreq=1, maxin=1, steps='{2}', pre=True),
+                dict(nodes=3, pct=ALLP, rules=[1], actives=['FALSE'], maxt=5, maxreq=2, maxin=1, steps='{2}', pre=True),
+                dict(nodes=1, pct=[1, 5, 7], rules=[1, 2, 3, 4], actives=BOTH, maxt=6, maxreq=5, maxin=2),
+                dict(nodes=2, pct=ALLP, rules=[2, 3, 4], actives=BOTH, maxt=4, maxreq=3, maxin=2),
+                dict(nodes=2, pct=[5, 7], rules=[1], actives=BOTH, maxt=5, maxreq=4, maxin=2, steps='{2}', nres=2, pooled=True),
+                dict(nodes=1, pct=[7], rules=[1], actives=BOTH, maxt=5, maxreq=5, maxin=1, steps='{2}', nres=2, pooled=True),
+                dict(nodes=1, pct=[7], rules=[1, 2], actives=BOTH, maxt=7, maxreq=5, maxin=2, steps='{2}', pooled=True),
+                dict(nodes=2, pct=[5, 7], rules=[1], actives=BOTH, maxt=5, maxreq=3, maxin=2, steps='{2}', reloads=1),
+                dict(nodes=3, pct=[1, 4, 5, 7], rules=[1], actives=BOTH, maxt=5, maxreq=3, maxin=1, steps='{2}', reloads=1),
+                # two reloads, the circuit-breaker rule changes with a clear: eject - reload - recover - reload
+                dict(nodes=1, pct=[1, 7], rules=[1, 2], actives=BOTH, maxt=7, maxreq=4, maxin=1, steps='{2}', reloads=2),
+                # two resources on one chain, each with its own rule in force
+                dict(nodes=1, pct=[5, 7], rules=[1], actives=BOTH, maxt=5, maxreq=3, maxin=1, steps='{2}', nres=2, pooled=True, reloads=1)]
+    for kw in runs:
+        r = c.model_check('Outlier_MC', cfg_text=mc_cfg(**kw), workers=8, timeout=1500 if thorough else 170)
+        if not r.completed:
+            c.inconclusive.append('Outlier.tla: %s violated for %s - the spec no longer describes a correct design' % (r.violated, kw))
+    c.cov['exhaustive'] = True
+
+
+def model_check_mutants(c, thorough):
+    """S1, second half: the deliberately broken designs (vacuity self-test of every clause); runs beside model_check_design"""
+    ALLP, BOTH = [1, 2, 3, 4, 5, 6, 7], ['FALSE', 'TRUE']
+    # vacuity: each clause of the property fails on the corresponding broken design
+    for mut, prop in (('cap', 'PCap'), ('closed', 'PFilter'), ('half', 'PHalf'), ('recycle', 'PRecycle')):
+        r = c.tlc('Outlier_MC', cfg_text=mc_cfg(nodes=3, pct=[3, 5, 7], rules=[1], actives=['FALSE'], maxt=4, maxreq=3, maxin=1, mut=mut),
+                  workers=2, timeout=170, count=False)
+        if r.violated != prop:
+            raise MachineryError('vacuity self-test: broken design %s should violate %s, TLC says %s %s' % (mut, prop, r.violated, r.error))
+    # the shortcut "nothing rejects, nothing is probed: return before the lists are written" shows only through the pooled
+    # contexts: it must violate the clause about quiet requests and the clause about the own resource's nodes
+    stale = dict(nodes=2, pct=[5, 7], rules=[1], actives=BOTH, maxt=5, maxreq=4, maxin=1, steps='{2}', nres=2, pooled=True, mut='stale')
+    for prop in ('PQuiet', 'POwn'):
+        r = c.tlc('Outlier_MC', cfg_text=mc_cfg(props=prop, **stale), workers=2, timeout=170, count=False)
+        if r.violated != prop:
+            raise MachineryError('vacuity self-test: broken design stale should violate %s, TLC says %s %s' % (prop, r.violated, r.error))
+    # a reload that forgets which scheduled nodes have recovered (the armed timers stay): a node that completed successfully
+    # is recycled.  Must violate the statement-level clause over the history (PSurvive) and the clause about what a reload
+    # may touch (PReload); the clauses about the recycler's own marks (PRecycle, PKept) cannot see it.
+    forget = dict(nodes=2, pct=[5, 7], rules=[1], actives=BOTH, maxt=5, maxreq=3, maxin=2, steps='{2}', reloads=1, mut='forget')
+    for prop in ('PSurvive', 'PReload'):
+        r = c.tlc('Outlier_MC', cfg_text=mc_cfg(props=prop, **forget), workers=2, timeout=170, count=False)
+        if r.violated != prop:
+            raise MachineryError('vacuity self-test: broken design forget should violate %s, TLC says %s %s' % (prop, r.violated, r.error))
+    c.cov['spec_mutants'] = ('cap->PCap closed->PFilter half->PHalf recycle->PRecycle stale(pooled contexts)->PQuiet, POwn '
+                             'forget(reload drops the recovered marks)->PSurvive, PReload: all violated as required')
+    c.log('S1 vacuity: the six broken designs violate PCap / PFilter / PHalf / PRecycle / PQuiet + POwn / PSurvive + PReload')
+
+
 def check(c, tier, replay):
     try:
         check_body(c, tier, replay)
@@ -548,84 +872,80 @@ def check_body(c, tier, replay):
         c.sample(s[:8])
         return
     thorough = tier == 'thorough'
-    # S1 ---------------------------------------------------------------------------------
     ALLP, BOTH = [1, 2, 3, 4, 5, 6, 7], ['FALSE', 'TRUE']
-    if not thorough:
-        runs = [dict(nodes=3, pct=ALLP, rules=[1], actives=BOTH, maxt=5, maxreq=3, maxin=2, steps='{2}'),
-                dict(nodes=2, pct=[2, 4, 5, 7], rules=[2, 3, 4], actives=['FALSE'], maxt=4, maxreq=3, maxin=1),
-                # pre = start from ANY set of known nodes, any of them open: every (known, open) split of 4 nodes x every percentage
-                dict(nodes=4, pct=ALLP, rules=[1], actives=BOTH, maxt=3, maxreq=1, maxin=1, steps='{2}', pre=True),
-                # two resources on one chain: the answer lists live in pooled contexts that keep their content
-                dict(nodes=2, pct=[5, 7], rules=[1], actives=BOTH, maxt=5, maxreq=3, maxin=2, steps='{2}', nres=2, pooled=True),
-                # one resource, pooled contexts, long enough to eject - recover - be quiet again (two probes with rule 2)
-                dict(nodes=1, pct=[7], rules=[1, 2], actives=BOTH, maxt=7, maxreq=5, maxin=1, steps='{2}', pooled=True)]
-    else:
-        runs = [dict(nodes=3, pct=ALLP, rules=[1], actives=BOTH, maxt=5, maxreq=3, maxin=2),
-                dict(nodes=3, pct=[1, 4, 5, 7], rules=[1], actives=BOTH, maxt=5, maxreq=4, maxin=2, steps='{2}'),
-                dict(nodes=4, pct=ALLP, rules=[1], actives=BOTH, maxt=5, maxreq=3, maxin=1, steps='{2}'),
-                dict(nodes=5, pct=ALLP, rules=[1], actives=BOTH, maxt=3, maxreq=1, maxin=1, steps='{2}', pre=True),
-                dict(nodes=4, pct=ALLP, rules=[1], actives=BOTH, maxt=3, maxreq=1, maxin=1, steps='{2}', pre=True),
-                dict(nodes=3, pct=ALLP, rules=[1], actives=['FALSE'], maxt=5, maxreq=2, maxin=1, steps='{2}', pre=True),
-                dict(nodes=1, pct=[1, 5, 7], rules=[1, 2, 3, 4], actives=BOTH, maxt=6, maxreq=5, maxin=2),
-                dict(nodes=2, pct=ALLP, rules=[2, 3, 4], actives=BOTH, maxt=4, maxreq=3, maxin=2),
-                dict(nodes=2, pct=[5, 7], rules=[1], actives=BOTH, maxt=5, maxreq=4, maxin=2, steps='{2}', nres=2, pooled=True),
-                dict(nodes=1, pct=[7], rules=[1], actives=BOTH, maxt=5, maxreq=5, maxin=1, steps='{2}', nres=2, pooled=True),
-                dict(nodes=1, pct=[7], rules=[1, 2], actives=BOTH, maxt=7, maxreq=5, maxin=2, steps='{2}', pooled=True)]
-    for kw in runs:
-        r = c.model_check('Outlier_MC', cfg_text=mc_cfg(**kw), workers=8, timeout=1500 if thorough else 170)
-        if not r.completed:
-            c.inconclusive.append('Outlier.tla: %s violated for %s - the spec no longer describes a correct design' % (r.violated, kw))
-    c.cov['exhaustive'] = True
-    # vacuity: each clause of the property fails on the corresponding broken design
-    for mut, prop in (('cap', 'PCap'), ('closed', 'PFilter'), ('half', 'PHalf'), ('recycle', 'PRecycle')):
-        r = c.tlc('Outlier_MC', cfg_text=mc_cfg(nodes=3, pct=[3, 5, 7], rules=[1], actives=['FALSE'], maxt=4, maxreq=3, maxin=1, mut=mut),
-                  workers=2, timeout=170, count=False)
-        if r.violated != prop:
-            raise MachineryError('vacuity self-test: broken design %s should violate %s, TLC says %s %s' % (mut, prop, r.violated, r.error))
-    # the shortcut "nothing rejects, nothing is probed: return before the lists are written" shows only through the pooled
-    # contexts: it must violate the clause about quiet requests and the clause about the own resource's nodes
-    stale = dict(nodes=2, pct=[5, 7], rules=[1], actives=BOTH, maxt=5, maxreq=4, maxin=1, steps='{2}', nres=2, pooled=True, mut='stale')
-    for prop in ('PQuiet', 'POwn'):
-        r = c.tlc('Outlier_MC', cfg_text=mc_cfg(props=prop, **stale), workers=2, timeout=170, count=False)
-        if r.violated != prop:
-            raise MachineryError('vacuity self-test: broken design stale should violate %s, TLC says %s %s' % (prop, r.violated, r.error))
-    c.cov['spec_mutants'] = ('cap->PCap closed->PFilter half->PHalf recycle->PRecycle stale(pooled contexts)->PQuiet, POwn: '
-                             'all violated as required')
-    c.log('S1 vacuity: the five broken designs violate PCap / PFilter / PHalf / PRecycle / PQuiet + POwn')
+    # S1 runs beside S2-S4 (pure TLC work on the design model, nothing the scenario stages depend on): a shallow copy of the
+    # check object with its own scratch directory and run counter shares the evidence dictionaries (only S1 writes states /
+    # transitions / tlc_runs / spec_mutants).  Its failures are raised when it is joined, before any verdict.
+    s1_pool = concurrent.futures.ThreadPoolExecutor(max_workers=2)
+    s1 = []
+    for k, fn in enumerate((model_check_design, model_check_mutants)):
+        c1 = copy.copy(c)
+        c1.scratch = os.path.join(c.scratch, 's1-%d' % k)
+        os.makedirs(c1.scratch)
+        c1._tlc_n = 0
+        s1.append(s1_pool.submit(fn, c1, thorough))
+    try:
+        scenario_stages(c, drv, thorough, ALLP, BOTH)
+    finally:
+        s1_pool.shutdown(wait=True)
+    for f in s1:
+        f.result()
+
+
+def scenario_stages(c, drv, thorough, ALLP, BOTH):
     # S2 ---------------------------------------------------------------------------------
     scns, tr = [], 0
     gens = [dict(nodes=3, pct=[4, 5], rules=[1], actives=BOTH, maxt=5, maxreq=3, maxin=1, steps='{2}'),
             dict(nodes=2, pct=[5], rules=[2, 3, 4], actives=['FALSE'], maxt=4, maxreq=3, maxin=1),
-            dict(nodes=2, pct=[7], rules=[1], actives=BOTH, maxt=5, maxreq=3, maxin=1, steps='{2}', nres=2)]
+            dict(nodes=2, pct=[7], rules=[1], actives=BOTH, maxt=5, maxreq=3, maxin=1, steps='{2}', nres=2),
+            dict(nodes=2, pct=[4, 7], rules=[1], actives=BOTH, maxt=5, maxreq=2, maxin=1, steps='{2}', reloads=1)]
     if thorough:
         gens = [dict(nodes=3, pct=[2, 4, 5, 7], rules=[1], actives=BOTH, maxt=5, maxreq=3, maxin=2),
                 dict(nodes=2, pct=[2, 5, 7], rules=[2, 3, 4], actives=BOTH, maxt=4, maxreq=3, maxin=2),
                 dict(nodes=4, pct=[3, 5, 6], rules=[1], actives=['FALSE'], maxt=5, maxreq=3, maxin=1, steps='{2}'),
-                dict(nodes=2, pct=[5, 7], rules=[1], actives=BOTH, maxt=5, maxreq=3, maxin=2, steps='{2}', nres=2)]
+                dict(nodes=2, pct=[5, 7], rules=[1], actives=BOTH, maxt=5, maxreq=3, maxin=2, steps='{2}', nres=2),
+                dict(nodes=3, pct=[4, 7], rules=[1], actives=BOTH, maxt=5, maxreq=3, maxin=1, steps='{2}', reloads=1),
+                dict(nodes=2, pct=[7], rules=[1, 2], actives=BOTH, maxt=5, maxreq=3, maxin=1, steps='{2}', reloads=2)]
     cap = 1200 if not thorough else 30000
-    for kw in gens:
-        r = c.tlc('Outlier_MC', cfg_text=mc_cfg(gen=True, **kw), workers=4, timeout=900 if thorough else 120, count=False)
+    nsim = 200 if not thorough else 3000
+    sims = ((1, 0), (2, 0), (2, 3))
+
+    # the TLC runs that generate scenarios are independent of each other: quick runs them side by side (each in its own
+    # scratch directory), their output is consumed in the fixed order below (the seeded choices stay reproducible)
+    def tlc_job(k):
+        cc = copy.copy(c)
+        cc.scratch = os.path.join(c.scratch, 'gen%d' % k)
+        os.makedirs(cc.scratch)
+        cc._tlc_n = 0
+        if k < len(gens):
+            return cc.tlc('Outlier_MC', cfg_text=mc_cfg(gen=True, **gens[k]), workers=4, timeout=900 if thorough else 120, count=False)
+        nres, reloads = sims[k - len(gens)]
+        return cc.tlc('Outlier_MC', cfg_text=mc_cfg(gen=True, nodes=5 if nres == 1 else 3, pct=ALLP, rules=[1, 2, 3, 4], actives=BOTH, maxt=12,
+                                                    maxreq=12, maxin=2, nres=nres, reloads=reloads),
+                      workers=1, timeout=300, count=False, args=['-simulate', 'num=%d' % (nsim // nres), '-depth', '28', '-seed', str(c.seed)])
+    with concurrent.futures.ThreadPoolExecutor(max_workers=1 if thorough else 4) as ex:
+        jobs = list(ex.map(tlc_job, range(len(gens) + len(sims))))
+    for kw, r in zip(gens, jobs):
         if r.error:
             raise MachineryError('scenario generation failed: %s\n%s' % (r.error, r.out[-1500:]))
         hs = r.json_prints()
         keep = maximal(hs)
-        if len(keep) > cap:
-            keep = c.rng.sample(keep, cap)
+        kcap = cap // (3 if thorough else 2) if kw.get('reloads') else cap
+        if len(keep) > kcap:
+            keep = c.rng.sample(keep, kcap)
         for hh in keep:
             tr += 1
-            scns.append(decorate(hh, tr, c.rng.choice([500, 1000, 250])))
-        c.log('S2 transition cover %s: %d transitions -> %d scenarios' % ({k: kw[k] for k in ('nodes', 'rules')}, len(hs), len(keep)))
+            scns.append(spice(c.rng, decorate(hh, tr, c.rng.choice([500, 1000, 250]))))
+        c.log('S2 transition cover %s: %d transitions -> %d scenarios' % ({k: kw.get(k, 0) for k in ('nodes', 'rules', 'reloads')}, len(hs), len(keep)))
     cover_n = len(scns)
-    nsim = 200 if not thorough else 3000
-    for nres in (1, 2):
-        r = c.tlc('Outlier_MC', cfg_text=mc_cfg(gen=True, nodes=5 if nres == 1 else 3, pct=ALLP, rules=[1, 2, 3, 4], actives=BOTH, maxt=12, maxreq=12,
-                                                maxin=2, nres=nres),
-                  workers=1, timeout=300, count=False, args=['-simulate', 'num=%d' % (nsim // nres), '-depth', '28', '-seed', str(c.seed)])
+    for (nres, reloads), r in zip(sims, jobs[len(gens):]):
+        if r.error:
+            raise MachineryError('scenario generation (simulation) failed: %s\n%s' % (r.error, r.out[-1500:]))
         keep = maximal(r.json_prints())
         for hh in keep:
             tr += 1
-            scns.append(decorate(hh, tr, c.rng.choice([500, 1000])))
-        c.log('S2 TLC simulation (%d resource(s)): %d behaviours' % (nres, len(keep)))
+            scns.append(spice(c.rng, decorate(hh, tr, c.rng.choice([500, 1000]))))
+        c.log('S2 TLC simulation (%d resource(s), <= %d reloads): %d behaviours' % (nres, reloads, len(keep)))
     nrand = 400 if not thorough else 6000
     rs = random_scenarios(c, nrand, tr + 1)
     tr += nrand
@@ -635,14 +955,17 @@ def check_body(c, tier, replay):
     nbig = 25 if not thorough else 300
     rb = random_scenarios(c, nbig, tr + 1, big=True)
     tr += nbig
+    nrel = 120 if not thorough else 2000
+    rr = reload_scenarios(c, nrel, tr + 1)
+    tr += nrel
     # S3 + S4 ----------------------------------------------------------------------------
     all_traces = []
     nstale = 0
-    for tag, group in (('tlc', scns), ('random', rs), ('quiet', rq), ('big', rb)):
-        for i in range(0, len(group), 4000):
-            part = group[i:i + 4000]
+    for tag, group in (('tlc', scns), ('random', rs), ('quiet', rq), ('big', rb), ('reload', rr)):
+        for i in range(0, len(group), 5000):
+            part = group[i:i + 5000]
             mism, tp, _ = run_and_validate(c, drv, part, '%s%d' % (tag, i))
-            if i == 0 and not mism and tag in ('tlc', 'random', 'quiet'):
+            if i == 0 and not mism and tag in ('tlc', 'random', 'quiet') + (('reload',) if thorough else ()):
                 nstale += binding_selftest(c, tp, drift=run_and_validate.drift)
             all_traces += split(read_ndjson(tp))
             handle_mismatches(c, drv, part, mism, tag)
@@ -652,21 +975,19 @@ def check_body(c, tier, replay):
     if True:   # (the recycle scenarios use the library's real 1 s timers: one repetition in quick, four in thorough)
         rec = []
         for rep in range(4 if thorough else 1):
-            rec += recycle_scenarios(c, tr)
-            tr += 10
-        # one driver process per scenario: the real-time guard of `wait' is per process start
-        good = None
-        gave_up = []
-        for s in rec:
-            # partial: if the driver gives up (timeout / unsafe timing) what it recorded is still judged, and the failure is
-            # reported at the end (exit 2 only if nothing else was found)
-            mism, tp, err = run_and_validate(c, drv, [s], 'recycle%d' % s[0]['tr'], timeout=120, retries=3, partial=True)
-            all_traces += split(read_ndjson(tp))
-            handle_mismatches(c, drv, [s], mism, 'recycle', timeout=120, retries=3, partial=True)
-            if err is not None:
-                gave_up.append('recycle scenario %d: %s' % (s[0]['tr'], str(err).strip().splitlines()[-1][:300]))
-            elif not mism:
-                good = (good or []) + read_ndjson(tp)
+            # quick: R6a (reload through LoadRuleOfResource while the timers are pending) and one of R6b / R6c / R6d
+            rec += recycle_scenarios(c, tr, 'abcd' if thorough else 'a' + c.rng.choice('bcd'))
+            tr += 12
+        # one driver process per scenario (the real-time guard of `wait' is per process start), side by side; one judgement.
+        # partial: if a driver gives up (timeout / unsafe timing) what it recorded is still judged, and the failure is
+        # reported at the end (exit 2 only if nothing else was found)
+        mism, tp, errs = run_and_validate(c, drv, rec, 'recycle', timeout=120, retries=3, partial=True, each=True)
+        rec_traces = split(read_ndjson(tp))
+        all_traces += rec_traces
+        handle_mismatches(c, drv, rec, mism, 'recycle', timeout=120, retries=3, partial=True)
+        gave_up = ['recycle scenario %d: %s' % (t, str(e).strip().splitlines()[-1][:300]) for t, e in (errs or [])]
+        bad = {m[0] for m in mism} | {t for t, _ in (errs or [])}
+        good = [e for t in rec_traces if t[0]['tr'] not in bad for e in t]
         if good:
             gp = os.path.join(c.scratch, 'recycle-good.ndjson')
             write_ndjson(gp, good)
@@ -685,6 +1006,15 @@ def check_body(c, tier, replay):
     c.cov['traces_with_several_resources'] = sum(1 for t in all_traces if len(t[0].get('cfgs', [])) > 1)
     c.cov['requests_of_second_resources'] = sum(1 for e in asks if e.get('res', 1) > 1)
     c.cov['quiet_requests_after_a_report'] = sum(quiet_after_report(t) for t in all_traces)
+    rl = [reload_stats(t) for t in all_traces]
+    c.cov['reloads_in_mid_history'] = sum(x[0] for x in rl)
+    c.cov['clearing_reloads'] = sum(x[1] for x in rl)
+    c.cov['reloads_through_LoadRules'] = sum(x[2] for x in rl)
+    c.cov['nonempty_answers_after_a_reload'] = sum(x[3] for x in rl)
+    c.cov['recycle_scenarios_with_a_reload_while_timers_pend'] = sum(1 for t in all_traces if t[-1]['op'] == 'recycle' and any(e['op'] == 'reload' for e in t))
+    if c.cov['reloads_in_mid_history'] < 500 or c.cov['nonempty_answers_after_a_reload'] < 500 or c.cov['clearing_reloads'] < 50:
+        raise MachineryError('coverage guard: only %d reloads in mid-history (%d clearing), %d non-empty answers after a reload' % (
+            c.cov['reloads_in_mid_history'], c.cov['clearing_reloads'], c.cov['nonempty_answers_after_a_reload']))
     if c.cov['quiet_requests_after_a_report'] < 500 or c.cov['requests_of_second_resources'] < 500:
         raise MachineryError('coverage guard: only %d quiet requests after a report / %d requests of second resources' % (
             c.cov['quiet_requests_after_a_report'], c.cov['requests_of_second_resources']))
